@@ -171,7 +171,8 @@ class Sharder:
         self.count += 1
         return self.count - 1
 
-    def run(self, env_extra=None, timeout=3600, per_shard_cwd=False):
+    def run(self, env_extra=None, timeout=3600, per_shard_cwd=False, tolerate_death=False):
+        self.deaths = []
         for f in self.files:
             f.close()
         env = dict(os.environ)
@@ -197,7 +198,10 @@ class Sharder:
                 raise ToolError("harness replay timed out")
             inp.close(); outp.close(); errp.close()
             if rc != 0:
-                raise ToolError(f"harness replay exited with {rc}; see {self.dir}/err*.txt")
+                if tolerate_death:
+                    self.deaths.append((procs.index((p, inp, outp, errp)), rc))
+                else:
+                    raise ToolError(f"harness replay exited with {rc}; see {self.dir}/err*.txt")
 
     def results(self):
         for i in range(self.n):
